@@ -165,11 +165,19 @@ func (r *gatewayController) buildCanaryHeaderHttpRoutes(rules []gatewayv1beta1.H
 	})
 	for i := range rules {
 		rule := rules[i]
+		_, stableRef := getServiceBackendRef(rule, r.conf.StableService)
 		if _, canaryRef := getServiceBackendRef(rule, r.conf.CanaryService); canaryRef != nil {
-			continue
+			if stableRef == nil {
+				// canary rule generated by an earlier match step: rebuilt below
+				continue
+			}
+			// rule of the user that an earlier weight step has split: undo the split, keep the rule
+			filterOutServiceBackendRef(&rule, r.conf.CanaryService)
+			stableRef.Weight = utilpointer.Int32(1)
+			setServiceBackendRef(&rule, *stableRef)
 		}
 		desired = append(desired, rule)
-		if _, stableRef := getServiceBackendRef(rule, r.conf.StableService); stableRef == nil {
+		if stableRef == nil {
 			continue
 		}
 		// according to stable rule to create canary rule
